@@ -254,7 +254,7 @@ impl Prop for C11 {
         if obs.iter_owned != obs.iter_ref || obs.iter_owned.len() != n || !obs.iter_owned.iter().zip(&obs.int_flat).all(|(a, b)| bits_eq(a, b)) || !obs.iter_ref.iter().zip(&obs.int_flat).all(|(a, b)| bits_eq(a, b)) {
             fail!("{tyname}: integral_iter (by value) {:?}, integral_iter_ref {:?} and Piecewise::integral {:?} do not yield identical pieces", obs.iter_owned, obs.iter_ref, obs.int_flat);
         }
-        if !bits_eq(&obs.ind_flat[0], &obs.seg0_indef_flat) {
+        if !crate::model::nums_eq(&obs.ind_flat[0], &obs.seg0_indef_flat) {
             fail!("{tyname}.indefinite(): first piece {:?} is not segments[0].indefinite() = {:?}", obs.ind_flat[0], obs.seg0_indef_flat);
         }
         if obs.empty_indef_len != 0 || obs.empty_int_len != 0 {
